@@ -120,3 +120,38 @@ Proof.
     + unfold slen. cbn [length]. destruct (Z.of_nat 0 =? n) eqn:E0; [|reflexivity]. apply Z.eqb_eq in E0. lia.
     + inversion E. subst c'. cbn [in_alpha forallb]. rewrite Hc. apply andb_false_r.
 Qed.
+
+(* ---- the Go helper plainFrags, literally: strip one trailing '$', nothing left = no fragment, else
+   strings.Split; it agrees with [plain_frags] except on the body "$" (Go: no fragment; here and in the
+   parser: one empty fragment), which no layout accepts either way ---- *)
+Definition plain_frags_go (body : bytes) : list bytes :=
+  let b := strip_dollar body in if nil_b b then [] else split_on dollar [] b.
+
+Lemma pieces_snoc_sep sep : forall s cur, pieces sep cur (s ++ [sep]) = split_on sep cur s.
+Proof.
+  induction s as [|c s IH]; intros cur; cbn [app pieces split_on].
+  - rewrite Z.eqb_refl. reflexivity.
+  - destruct (c =? sep). f_equal. apply IH. apply IH.
+Qed.
+
+Lemma pieces_snoc_other sep c : (c =? sep) = false ->
+  forall s cur, pieces sep cur (s ++ [c]) = split_on sep cur (s ++ [c]).
+Proof.
+  intros Hc. induction s as [|d s IH]; intros cur; cbn [app pieces split_on].
+  - rewrite Hc. reflexivity.
+  - destruct (d =? sep). f_equal. apply IH. apply IH.
+Qed.
+
+Lemma plain_frags_go_eq body : body <> [dollar] -> plain_frags_go body = plain_frags body.
+Proof.
+  intros Hne. unfold plain_frags_go, plain_frags, strip_dollar.
+  destruct (rev body) as [|c r] eqn:E.
+  - apply (f_equal (@rev Z)) in E. rewrite rev_involutive in E. subst body. reflexivity.
+  - assert (body = rev r ++ [c]) as Hb.
+    { rewrite <- (rev_involutive body), E. reflexivity. }
+    destruct (c =? dollar) eqn:Ec; cbv zeta.
+    + apply Z.eqb_eq in Ec. subst c. rewrite Hb. rewrite pieces_snoc_sep.
+      destruct (rev r) as [|x t] eqn:Er. exfalso. apply Hne. rewrite Hb. reflexivity. reflexivity.
+    + destruct body as [|x t]. destruct (rev r); discriminate Hb.
+      cbn [nil_b]. rewrite Hb. symmetry. apply pieces_snoc_other. exact Ec.
+Qed.
